@@ -38,10 +38,19 @@ def family_a(ck, case, rnd):
     exact = is_pow2(tot) and all(L == 0 or is_pow2(L) for L in lens)     # then every T, fraction and t is dyadic: float arithmetic exact
     if exact:
         kinds = ['L'] * n
+    # place the origin at the end of a seeded segment (0j is falsy: sentinel bugs only show there); integer shifts are exact
+    zk = rnd.randrange(n + 1)
+    ends, x, y = [], 0.0, 0.0
+    for k in range(n):
+        x += lens[k]
+        ends.append(complex(x, y))
+        if k < n - 1 and not jn[k]:
+            y += 1.0
+    off = -ends[zk] if zk < n else 0j
     segs, x, y = [], 0.0, 0.0
     for k in range(n):
-        a = complex(x, y)
-        b = complex(x + lens[k], y)
+        a = complex(x, y) + off
+        b = complex(x + lens[k], y) + off
         segs.append(uniform_seg(kinds[k], a, b))
         x += lens[k]
         if k < n - 1 and not jn[k]:
@@ -121,6 +130,11 @@ def family_b(ck, n, jn, closing, runs, rnd, variant):
         ends[-1] = starts[0]
     elif not closing and ends[-1] == starts[0]:
         return
+    zk = (variant * 7 + n) % (n + 2)
+    if zk < n:          # origin at the end of segment zk (a falsy complex 0 in the code's eyes)
+        off = ends[zk]
+        starts = [z - off for z in starts]
+        ends = [z - off for z in ends]
     if n == 1 and closing:
         return      # a single segment from a point to itself: only possible with a curve; skip (null arcs / zero lines excluded)
     segs = []
